@@ -8,17 +8,16 @@ Import ListNotations RecordSetNotations.
 
 (* ---- the second hypothesis --------------------------------------------------------------------------------------- *)
 (* evaluated on the observer state BEFORE the event:
-   (1) an instance is created after a completed shutdown by Run()'s spawn loop or outside any API call;
+   (1) an instance is created by Run()'s spawn loop after a completed shutdown;
    (2) when a shutdown returns, there is an instance outside its snapshot whose goroutine has not reached
-       inst_exit and that is not "excused".  Excused = created by an explicit StartProcess/RestartProcess, never
-       in a shutdown snapshot, and no goroutine has begun it yet (the API call is still on its way to register it:
-       the snapshot is the registry content, the registry lock is held until the shutdown has returned). *)
+       inst_exit and that is not "excused".  Excused = created by an explicit StartProcess/RestartProcess and never
+       in a shutdown snapshot (the API call is still on its way to register it: the snapshot is the registry
+       content and the registry lock is held until the shutdown has returned). *)
 Definition byapi_of (o : obs) (th : tid) : bool :=
   match get th (o_api o) with Some OpRun | None => false | Some _ => true end.
 Definition is_run (o : obs) (th : tid) : bool := match get th (o_api o) with Some OpRun => true | _ => false end.
 Definition snap_of (o : obs) (th : tid) : list iid := match get th (o_sd_cur o) with Some l => l | None => [] end.
-Definition begun (o : obs) (i : iid) : bool := existsb (fun q => N.eqb (snd q) i) (o_th o).
-Definition excused (o : obs) (i : iid) (xo : oinst) : bool := o_byapi xo && negb (o_insnap xo) && negb (begun o i).
+Definition excused (o : obs) (i : iid) (xo : oinst) : bool := o_byapi xo && negb (o_insnap xo).
 Definition escape_C03 (o : obs) (te : tid * event) : bool :=
   match snd te with
   | ENewInst i n => Nat.ltb 0 (o_sd_done o) && is_run o (fst te)
@@ -163,15 +162,18 @@ Qed.
 
 Lemma eff_new s th i n s' : step_core s th (ENewInst i n) = Some s' ->
   get i (insts s) = None /\ running s' = running s /\ thinst s' = thinst s /\ reg_lock s' = reg_lock s /\
-  stage s' = set i (th, 0) (stage s).
-Proof. intros H. unfold step_core in H. kind_cases H. unfold has in *. destruct (get i (insts s)); [discriminate|]. repeat split. Qed.
+  stage s' = set i (th, 0) (stage s) /\ exists x, get i (insts s') = Some x.
+Proof.
+  intros H. unfold step_core in H. kind_cases H. unfold has in *. destruct (get i (insts s)); [discriminate|]. repeat split.
+  cbn. rewrite get_set_same. eauto.
+Qed.
 Lemma eff_state s th i s0 s' : step_core s th (EState i s0) = Some s' ->
   running s' = running s /\ thinst s' = thinst s /\ reg_lock s' = reg_lock s /\
-  (stage s' = stage s \/ stage s' = set i (th, 1) (stage s)).
+  (stage s' = stage s \/ (at_stage s th i 0 = true /\ stage s' = set i (th, 1) (stage s))).
 Proof.
   intros H. unfold step_core in H. kind_cases H.
   all: unfold set_pc, end_finish, write_status, upd_inst, upd_vis; cbn;
-       repeat match goal with |- context[match ?x with _ => _ end] => destruct x; cbn end; auto.
+       repeat match goal with |- context[match ?x with _ => _ end] => destruct x; cbn end; auto 6.
 Qed.
 Lemma eff_regadd s th i n s' : step_core s th (ERegAdd i n) = Some s' ->
   exists x, get i (insts s) = Some x /\ nm x = n /\ gonepc (pc x) = false /\ reg_lock s = None /\
@@ -182,11 +184,12 @@ Proof.
   destruct (reg_lock s) eqn:El; [discriminate|]. destruct (pc i0); try discriminate. repeat split; auto.
 Qed.
 Lemma eff_regdel s th i s' : step_core s th (ERegDel i) = Some s' ->
-  exists x, get i (insts s) = Some x /\ gonepc (pc x) = true /\
+  exists x, get i (insts s) = Some x /\ gonepc (pc x) = true /\ get (nm x) (running s) = Some i /\
     running s' = del (nm x) (running s) /\ stage s' = stage s /\ thinst s' = thinst s /\ reg_lock s' = reg_lock s /\ insts s' = insts s.
 Proof.
   intros H. unfold step_core in H. kind_cases H. eexists. split; [reflexivity|]. split_andb.
   destruct (pc i0); try discriminate; try (rewrite andb_false_r in *; discriminate). repeat split; auto.
+  now apply opt_eqb_N_eq.
 Qed.
 Lemma eff_spawn s th i n s' : step_core s th (ESpawn i n) = Some s' ->
   at_stage s th i 2 = true /\ stage s' = set i (th, 3) (stage s) /\ running s' = running s /\ thinst s' = thinst s /\ reg_lock s' = reg_lock s.
@@ -222,6 +225,7 @@ Definition snappc (d : sdpc) (order : list iid) : Prop := (exists r, d = DLoop o
 
 Record Inv3 (s : sys) : Prop := mkInv3 {
   iv_thi : forall t i, get t (thinst s) = Some i -> exists x, get i (insts s) = Some x;
+  iv_sti : forall i ck, get i (stage s) = Some ck -> exists x, get i (insts s) = Some x;
   iv_reg : forall i x, get i (insts s) = Some x -> act s i -> gonepc (pc x) = false -> get (nm x) (running s) = Some i;
   iv_lock : forall th, lockpc (dpc (get_thread s th)) = true -> reg_lock s = Some th;
   iv_unl : forall th, pend (get_thread s th) = Some RUnlock -> dpc (get_thread s th) = DEnded /\ reg_lock s = Some th;
@@ -229,26 +233,56 @@ Record Inv3 (s : sys) : Prop := mkInv3 {
             forall i x, get i (insts s) = Some x -> act s i -> gonepc (pc x) = false -> memN i order = true }.
 
 Definition ibwd (s s' : sys) : Prop :=
-  forall j x', get j (insts s') = Some x' -> exists x, get j (insts s) = Some x /\ nm x' = nm x /\ (gonepc (pc x) = true -> gonepc (pc x') = true).
+  forall j x', get j (insts s') = Some x' -> act s' j ->
+  exists x, get j (insts s) = Some x /\ nm x' = nm x /\ (gonepc (pc x) = true -> gonepc (pc x') = true).
 Definition ifwd (s s' : sys) : Prop := forall j x, get j (insts s) = Some x -> exists x', get j (insts s') = Some x'.
+Definition snap_all (s : sys) (order : list iid) : Prop :=
+  forall i x, get i (insts s) = Some x -> act s i -> gonepc (pc x) = false -> memN i order = true.
 
-Lemma Inv3_same s s' : running s' = running s -> stage s' = stage s -> thinst s' = thinst s -> reg_lock s' = reg_lock s ->
-  ibwd s s' -> ifwd s s' ->
+Lemma not_gone_bwd x x' : (gonepc (pc x) = true -> gonepc (pc x') = true) -> gonepc (pc x') = false -> gonepc (pc x) = false.
+Proof. intros Hg Hx'. destruct (gonepc (pc x)); [rewrite Hg in Hx' by reflexivity; discriminate|reflexivity]. Qed.
+
+(* threads part: lock clauses *)
+Lemma G2_keep s s' : reg_lock s' = reg_lock s ->
   (forall th, lockpc (dpc (get_thread s' th)) = true -> lockpc (dpc (get_thread s th)) = true) ->
-  (forall th, pend (get_thread s' th) = Some RUnlock -> pend (get_thread s th) = Some RUnlock /\ dpc (get_thread s' th) = dpc (get_thread s th)) ->
-  (forall th order, snappc (dpc (get_thread s' th)) order -> snappc (dpc (get_thread s th)) order) ->
-  Inv3 s -> Inv3 s'.
+  (forall th, pend (get_thread s' th) = Some RUnlock ->
+     (pend (get_thread s th) = Some RUnlock /\ dpc (get_thread s' th) = dpc (get_thread s th)) \/
+     (dpc (get_thread s' th) = DEnded /\ reg_lock s = Some th)) ->
+  Inv3 s ->
+  (forall th, lockpc (dpc (get_thread s' th)) = true -> reg_lock s' = Some th) /\
+  (forall th, pend (get_thread s' th) = Some RUnlock -> dpc (get_thread s' th) = DEnded /\ reg_lock s' = Some th).
 Proof.
-  intros Er Es Et El Hb Hf Hl Hu Hs [A B C D E].
-  assert (Hact : forall i, act s' i -> act s i) by (intros i; unfold act, staged2; rewrite Es, Et; auto).
-  assert (Hng : forall x x', (gonepc (pc x) = true -> gonepc (pc x') = true) -> gonepc (pc x') = false -> gonepc (pc x) = false).
-  { intros x x' Hg Hx'. destruct (gonepc (pc x)); [rewrite Hg in Hx' by reflexivity; discriminate|reflexivity]. }
-  constructor.
-  - intros t i Ht. rewrite Et in Ht. destruct (A t i Ht) as (x & Hx). eauto.
-  - intros i x' Hx' Ha Hg. destruct (Hb i x' Hx') as (x & Hx & En & Hgg). rewrite Er, En. eauto.
-  - intros th Hp. rewrite El. auto.
-  - intros th Hp. destruct (Hu th Hp) as [Hp0 Ed]. rewrite Ed, El. auto.
-  - intros th order Hsn i x' Hx' Ha Hg. destruct (Hb i x' Hx') as (x & Hx & En & Hgg). eapply E; eauto.
+  intros El Hl Hu I3. split.
+  - intros th Hp. rewrite El. apply (iv_lock _ I3), Hl, Hp.
+  - intros th Hp. rewrite El. destruct (Hu th Hp) as [[Hp0 Ed]|[Ed Hk]]; [rewrite Ed; apply (iv_unl _ I3), Hp0|auto].
+Qed.
+
+Lemma G3_keep s s' : ibwd s s' -> (forall i, act s' i -> act s i) ->
+  (forall th order, snappc (dpc (get_thread s' th)) order -> snappc (dpc (get_thread s th)) order \/ snap_all s order) ->
+  Inv3 s -> forall th order, snappc (dpc (get_thread s' th)) order -> snap_all s' order.
+Proof.
+  intros Hb Ha Hs I3 th order Hsn i x' Hx' Hac Hg. destruct (Hb i x' Hx' Hac) as (x & Hx & En & Hgg).
+  pose proof (not_gone_bwd _ _ Hgg Hg) as Hg0.
+  destruct (Hs th order Hsn) as [Hold|Hall]; [eapply (iv_snap _ I3); eauto|eapply Hall; eauto].
+Qed.
+
+Lemma G1_keep s s' : running s' = running s -> thinst s' = thinst s ->
+  (forall i, staged2 s' i = true -> staged2 s i = true) ->
+  (forall i ck, get i (stage s') = Some ck -> (exists ck', get i (stage s) = Some ck') \/ exists x, get i (insts s') = Some x) ->
+  ibwd s s' -> ifwd s s' -> Inv3 s ->
+  (forall t i, get t (thinst s') = Some i -> exists x, get i (insts s') = Some x) /\
+  (forall i ck, get i (stage s') = Some ck -> exists x, get i (insts s') = Some x) /\
+  (forall i x, get i (insts s') = Some x -> act s' i -> gonepc (pc x) = false -> get (nm x) (running s') = Some i) /\
+  (forall i, act s' i -> act s i).
+Proof.
+  intros Er Et Hst Hsk Hb Hf I3.
+  assert (Hact : forall i, act s' i -> act s i).
+  { intros i [H|[t H]]; [left; auto|right; exists t; now rewrite <- Et]. }
+  repeat split; auto.
+  - intros t i Ht. rewrite Et in Ht. destruct (iv_thi _ I3 t i Ht) as (x & Hx). eauto.
+  - intros i ck Hk. destruct (Hsk i ck Hk) as [(ck' & Hk')|Hx]; [|exact Hx]. destruct (iv_sti _ I3 i ck' Hk') as (x & Hx). eauto.
+  - intros i x' Hx' Ha Hg. destruct (Hb i x' Hx' Ha) as (x & Hx & En & Hgg). rewrite Er, En.
+    apply (iv_reg _ I3); auto. eapply not_gone_bwd; eauto.
 Qed.
 
 Lemma Inv3_init cs ord : Inv3 (init cs ord).
@@ -258,30 +292,259 @@ Qed.
 
 Lemma Inv3_flush th s : Inv3 s -> Inv3 (flush th s).
 Proof.
-  intros [A B C D E].
+  intros I3.
   assert (Hb : ibwd s (flush th s)).
-  { intros j x' Hx'. destruct (flush_bwd _ _ _ _ Hx') as (x & Hx & (En & Ep & _)). exists x. rewrite Ep. auto. }
-  assert (Hact : forall i, act (flush th s) i -> act s i) by (intros i; unfold act, staged2; rewrite flush_stage, flush_thinst; auto).
+  { intros j x' Hx' _. destruct (flush_bwd _ _ _ _ Hx') as (x & Hx & (En & Ep & _)). exists x. rewrite Ep. auto. }
+  assert (Hf : ifwd s (flush th s)).
+  { intros j x Hx. destruct (flush_fwd th _ _ _ Hx) as (x' & Hx' & _). eauto. }
+  destruct (G1_keep s (flush th s)) as (A & B & C & Hact); auto using flush_running, flush_thinst.
+  { intros i. unfold staged2. now rewrite flush_stage. } { intros i ck. rewrite flush_stage. eauto. }
   assert (Hth : forall th', dpc (get_thread (flush th s) th') = dpc (get_thread s th') /\
                             (pend (get_thread (flush th s) th') = Some RUnlock -> th' <> th /\ pend (get_thread s th') = Some RUnlock)).
   { intros th'. destruct (flush_thread th s th') as (_ & _ & Ed & Ep). split; [exact Ed|]. rewrite Ep.
     destruct (N.eqb_spec th th'); [discriminate|]. intros Hp. split; [congruence|exact Hp]. }
   assert (Hlk : forall th', reg_lock s = Some th' -> th' <> th \/ pend (get_thread s th) <> Some RUnlock -> reg_lock (flush th s) = Some th').
   { intros th' Hl Hc. rewrite flush_reg_lock. destruct (pend (get_thread s th)) as [[]|] eqn:Ep; auto.
-    destruct (D th Ep) as [_ Hl2]. destruct Hc as [Hc|Hc]; congruence. }
-  constructor.
-  - intros t i Ht. rewrite flush_thinst in Ht. destruct (A t i Ht) as (x & Hx). destruct (flush_fwd th _ _ _ Hx) as (x' & Hx' & _). eauto.
-  - intros i x' Hx' Ha Hg. destruct (Hb i x' Hx') as (x & Hx & En & Hgg). rewrite flush_running, En. apply B; auto.
-    destruct (gonepc (pc x)); [rewrite Hgg in Hg by reflexivity; discriminate|reflexivity].
-  - intros th' Hp. destruct (Hth th') as [Ed _]. rewrite Ed in Hp. apply Hlk; [auto|].
-    destruct (N.eq_dec th' th) as [->|Hne]; [|auto]. right. intros Hpe. destruct (D th Hpe) as [Hd _]. rewrite Hd in Hp. discriminate.
-  - intros th' Hp. destruct (Hth th') as [Ed Hp2]. destruct (Hp2 Hp) as [Hne Hp0]. destruct (D th' Hp0) as [Hd Hl].
+    destruct (iv_unl _ I3 th Ep) as [_ Hl2]. destruct Hc as [Hc|Hc]; congruence. }
+  constructor; auto.
+  - intros th' Hp. destruct (Hth th') as [Ed _]. rewrite Ed in Hp. apply Hlk; [apply (iv_lock _ I3); auto|].
+    destruct (N.eq_dec th' th) as [->|Hne]; [|auto]. right. intros Hpe. destruct (iv_unl _ I3 th Hpe) as [Hd _]. rewrite Hd in Hp. discriminate.
+  - intros th' Hp. destruct (Hth th') as [Ed Hp2]. destruct (Hp2 Hp) as [Hne Hp0]. destruct (iv_unl _ I3 th' Hp0) as [Hd Hl].
     rewrite Ed. split; [exact Hd|]. apply Hlk; auto.
-  - intros th' order Hsn i x' Hx' Ha Hg. destruct (Hth th') as [Ed _]. rewrite Ed in Hsn.
-    destruct (Hb i x' Hx') as (x & Hx & En & Hgg). eapply E; eauto.
-    destruct (gonepc (pc x)); [rewrite Hgg in Hg by reflexivity; discriminate|reflexivity].
+  - intros th' order Hsn. eapply (G3_keep s (flush th s)); eauto.
+    intros th2 o2 H2. left. destruct (Hth th2) as [Ed _]. now rewrite Ed in H2.
 Qed.
 
+Lemma own_not_reg e : own_ev e = true -> reg_ev e = false.
+Proof. destruct e; intros H; try discriminate H; reflexivity. Qed.
+
+Lemma all_ibwd s th e s' : step_core s th e = Some s' -> (forall i n, e <> ENewInst i n) -> ibwd s s' /\ ifwd s s'.
+Proof.
+  intros H Hne. destruct (own_ev e) eqn:Hev.
+  - rewrite step_core_own in H by exact Hev.
+    destruct (step_own_mono _ _ _ _ H) as (i & x & x' & Hth & Hx & Hx' & Hoth & En & Ed & Er & Hg & _).
+    split.
+    + intros j y' Hy' _. destruct (N.eq_dec j i) as [->|Hn]; [assert (y' = x') by congruence; subst; eauto|].
+      rewrite (Hoth j Hn) in Hy'. eauto.
+    + intros j y Hy. destruct (N.eq_dec j i) as [->|Hn]; [eauto|]. rewrite (Hoth j Hn). eauto.
+  - split.
+    + intros j y' Hy' _.
+      destruct (step_core_inst_bwd _ _ _ _ H Hev j y' Hy') as [(x & Hx & (En & _ & _ & _ & Hg & _))|(_ & n & c & E & _)]; [eauto|].
+      exfalso. eapply Hne; eauto.
+    + intros j y Hy. destruct (step_core_inst _ _ _ _ H Hev j y Hy) as (y' & Hy' & _). eauto.
+Qed.
+
+Lemma dpc_other s th e s' : step_core s th e = Some s' -> forall th', th' <> th -> dpc (get_thread s' th') = dpc (get_thread s th').
+Proof.
+  intros H th' Hne. destruct (own_ev e) eqn:Hev.
+  - rewrite step_core_own in H by exact Hev.
+    destruct (step_own_mono _ _ _ _ H) as (i & x & x' & _ & _ & _ & _ & _ & _ & _ & _ & _ & _ & _ & Hthr). apply Hthr.
+  - destruct (step_core_dpc _ _ _ _ H Hev) as [Ho _]. auto.
+Qed.
+
+Lemma unl_keep s th e s' : step_core s th e = Some s' -> pend (get_thread s th) = None -> e <> EShutdownEnd ->
+  forall th', pend (get_thread s' th') = Some RUnlock ->
+  pend (get_thread s th') = Some RUnlock /\ dpc (get_thread s' th') = dpc (get_thread s th').
+Proof.
+  intros H Hpn Hne th' Hp. destruct (step_core_unl _ _ _ _ H th' Hp) as [Hp0|[_ He]]; [|contradiction].
+  split; [exact Hp0|]. apply (dpc_other _ _ _ _ H). intros ->. congruence.
+Qed.
+
+Lemma dpc_self_mono s th e s' : step_core s th e = Some s' ->
+  match e with EShutdownOrder _ | EShutdownBegin => False | _ => True end ->
+  (lockpc (dpc (get_thread s' th)) = true -> lockpc (dpc (get_thread s th)) = true) /\
+  (forall order, snappc (dpc (get_thread s' th)) order -> snappc (dpc (get_thread s th)) order).
+Proof.
+  intros H He. destruct (own_ev e) eqn:Hev.
+  - rewrite step_core_own in H by exact Hev.
+    destruct (step_own_mono _ _ _ _ H) as (i & x & x' & _ & _ & _ & _ & _ & _ & _ & _ & _ & _ & _ & Hthr).
+    destruct (Hthr th) as (_ & Ed & _). rewrite Ed. auto.
+  - destruct (step_core_dpc _ _ _ _ H Hev) as [_ Hth].
+    destruct e; try contradiction; try discriminate Hev; try (rewrite Hth; auto; fail).
+    all: try (rewrite Hth; split; [discriminate|intros order [[r Hr]|Hr]; discriminate]).
+    destruct Hth as [Hth|(o0 & rest & E1 & E2)]; [rewrite Hth; auto|]. rewrite E1, E2. split; [auto|].
+    intros order [[r Hr]|Hr]; [|discriminate]. injection Hr as <- <-. left. eauto.
+Qed.
+
+Definition plain_thr (e : event) : Prop := match e with EShutdownOrder _ | EShutdownEnd | EShutdownBegin => False | _ => True end.
+
+Lemma thr_conds s th e s' : step_core s th e = Some s' -> pend (get_thread s th) = None -> plain_thr e ->
+  (forall th', lockpc (dpc (get_thread s' th')) = true -> lockpc (dpc (get_thread s th')) = true) /\
+  (forall th', pend (get_thread s' th') = Some RUnlock ->
+     (pend (get_thread s th') = Some RUnlock /\ dpc (get_thread s' th') = dpc (get_thread s th')) \/
+     (dpc (get_thread s' th') = DEnded /\ reg_lock s = Some th')) /\
+  (forall th' order, snappc (dpc (get_thread s' th')) order -> snappc (dpc (get_thread s th')) order \/ snap_all s order).
+Proof.
+  intros H Hpn Hpl.
+  destruct (dpc_self_mono _ _ _ _ H) as [Hl Hs]. { destruct e; try contradiction; exact I. }
+  split; [|split].
+  - intros th' Hp. destruct (N.eq_dec th' th) as [->|Hne]; [auto|]. now rewrite (dpc_other _ _ _ _ H th' Hne) in Hp.
+  - intros th' Hp. left. apply (unl_keep _ _ _ _ H Hpn); [intros ->; contradiction|exact Hp].
+  - intros th' order Hsn. left. destruct (N.eq_dec th' th) as [->|Hne]; [auto|]. now rewrite (dpc_other _ _ _ _ H th' Hne) in Hsn.
+Qed.
+
+Lemma Inv3_assemble s th e s' : step_core s th e = Some s' -> pend (get_thread s th) = None -> plain_thr e ->
+  running s' = running s -> thinst s' = thinst s -> reg_lock s' = reg_lock s ->
+  (forall i, staged2 s' i = true -> staged2 s i = true) ->
+  (forall i ck, get i (stage s') = Some ck -> (exists ck', get i (stage s) = Some ck') \/ exists x, get i (insts s') = Some x) ->
+  ibwd s s' -> ifwd s s' -> Inv3 s -> Inv3 s'.
+Proof.
+  intros H Hpn Hpl Er Et El Hst Hsk Hb Hf I3.
+  destruct (thr_conds _ _ _ _ H Hpn Hpl) as (T1 & T2 & T3).
+  destruct (G1_keep s s') as (A & B & C & Hact); auto.
+  destruct (G2_keep s s' El T1 T2 I3) as [D E].
+  constructor; auto. intros th' order Hsn. eapply (G3_keep s s'); eauto.
+Qed.
+
+Lemma same_members_in l1 : forall l2, same_members l1 l2 = true -> forall a, In a l2 -> In a l1.
+Proof.
+  induction l1 as [|b r IH]; intros l2 H a Ha; cbn in H.
+  - destruct l2; [contradiction|discriminate].
+  - apply andb_true_iff in H. destruct H as [Hb Hr]. destruct (N.eq_dec a b) as [->|Hne]; [now left|right].
+    apply (IH _ Hr). unfold removeN. apply filter_In. split; [exact Ha|]. apply negb_true_iff, N.eqb_neq. exact Hne.
+Qed.
+
+Lemma eff_order s th order s' : step_core s th (EShutdownOrder order) = Some s' ->
+  dpc (get_thread s th) = DBegun /\ same_members order (map snd (running s)) = true /\ snappc (dpc (get_thread s' th)) order.
+Proof.
+  intros H. unfold step_core in H. kind_cases H. split; [auto|]. split; [auto|].
+  autorewrite with sup. rewrite N.eqb_refl. cbn. destruct (ordered s); [right|left]; eauto.
+Qed.
+
+Lemma Inv3_core s o th e s' : Inv s o -> Inv3 s -> pend (get_thread s th) = None -> step_core s th e = Some s' -> Inv3 s'.
+Proof.
+  intros HI I3 Hpn H.
+  destruct (reg_ev e) eqn:Hre.
+  2:{ destruct (step_core_regs _ _ _ _ H Hre) as (Er & Es & Et & El).
+      destruct (all_ibwd _ _ _ _ H) as [Hb Hf]. { intros i n ->. discriminate. }
+      assert (Hst : forall i, staged2 s' i = true -> staged2 s i = true) by (intros i; unfold staged2; now rewrite Es).
+      assert (Hsk : forall i ck, get i (stage s') = Some ck -> (exists ck', get i (stage s) = Some ck') \/ exists x, get i (insts s') = Some x)
+        by (intros i ck; rewrite Es; eauto).
+      assert (Hev : own_ev e = true \/ own_ev e = false) by (destruct (own_ev e); auto).
+      destruct e; try discriminate Hre; try (eapply Inv3_assemble; eauto; exact I).
+      - (* EShutdownOrder *)
+        destruct (eff_order _ _ _ _ H) as (Hd0 & Hsm & Hsn').
+        destruct (G1_keep s s') as (A & B & C & Hact); auto.
+        assert (Hall : snap_all s order).
+        { intros i x Hx Ha Hg. pose proof (iv_reg _ I3 i x Hx Ha Hg) as Hr. apply get_in in Hr.
+          apply memN_In, (same_members_in _ _ Hsm). apply (in_map snd) in Hr. exact Hr. }
+        destruct (G2_keep s s' El) as [D E]; auto.
+        { intros th' Hp. destruct (N.eq_dec th' th) as [->|Hne]; [now rewrite Hd0|]. now rewrite (dpc_other _ _ _ _ H th' Hne) in Hp. }
+        { intros th' Hp. left. apply (unl_keep _ _ _ _ H Hpn); [discriminate|exact Hp]. }
+        constructor; auto. intros th' o2 Hsn. eapply (G3_keep s s'); eauto.
+        intros th2 o3 H3. destruct (N.eq_dec th2 th) as [->|Hne].
+        + right. destruct Hsn' as [[r Hr]|Hr]; rewrite Hr in H3; destruct H3 as [[r3 H3]|H3]; try discriminate; injection H3 as <-; auto.
+        + left. now rewrite (dpc_other _ _ _ _ H th2 Hne) in H3.
+      - (* EShutdownEnd *)
+        destruct (sdend_guard _ _ _ H) as (order & Hdp & _).
+        destruct (step_core_dpc _ _ _ _ H eq_refl) as [_ Hde]. cbn in Hde.
+        destruct (dpc_self_mono _ _ _ _ H I) as [Hl Hs].
+        destruct (G1_keep s s') as (A & B & C & Hact); auto.
+        destruct (G2_keep s s' El) as [D E]; auto.
+        { intros th' Hp. destruct (N.eq_dec th' th) as [->|Hne]; [auto|]. now rewrite (dpc_other _ _ _ _ H th' Hne) in Hp. }
+        { intros th' Hp. destruct (step_core_unl _ _ _ _ H th' Hp) as [Hp0|[-> _]].
+          - left. split; [exact Hp0|]. apply (dpc_other _ _ _ _ H). intros ->. congruence.
+          - right. split; [exact Hde|]. apply (iv_lock _ I3). destruct Hdp as [[r Hr]|Hr]; rewrite Hr; reflexivity. }
+        constructor; auto. intros th' o2 Hsn. eapply (G3_keep s s'); eauto.
+        intros th2 o3 H3. left. destruct (N.eq_dec th2 th) as [->|Hne]; [auto|]. now rewrite (dpc_other _ _ _ _ H th2 Hne) in H3. }
+  assert (Hstage_set : forall i k j, get j (set i (th, k) (stage s)) = if N.eqb i j then Some (th, k) else get j (stage s))
+    by (intros; apply get_set).
+  destruct e; try discriminate Hre.
+  - (* ENewInst *)
+    destruct (eff_new _ _ _ _ _ H) as (Hnone & Er & Et & El & Es & Hnew).
+    assert (Hnact : forall t, get t (thinst s) <> Some i).
+    { intros t Ht. destruct (iv_thi _ I3 t i Ht) as (x & Hx). congruence. }
+    eapply Inv3_assemble; eauto; try exact I.
+    + intros j. unfold staged2. rewrite Es, Hstage_set. destruct (N.eqb_spec i j); [discriminate|auto].
+    + intros j ck. rewrite Es, Hstage_set. destruct (N.eqb_spec i j); [subst; auto|eauto].
+    + intros j x' Hx' Ha.
+      destruct (step_core_inst_bwd _ _ _ _ H eq_refl j x' Hx') as [(x & Hx & (En & _ & _ & _ & Hg & _))|(_ & n0 & c & E & _)]; [eauto|].
+      injection E as <- _. exfalso. destruct Ha as [Ha|[t Ht]].
+      * unfold staged2 in Ha. rewrite Es, Hstage_set, N.eqb_refl in Ha. discriminate.
+      * rewrite Et in Ht. exact (Hnact t Ht).
+    + intros j y Hy. destruct (step_core_inst _ _ _ _ H eq_refl j y Hy) as (y' & Hy' & _). eauto.
+  - (* ERegAdd *)
+    destruct (eff_regadd _ _ _ _ _ H) as (x & Hx & Hn & Hg & Hlk & Er & Es & Et & El & Ei).
+    destruct (thr_conds _ _ _ _ H Hpn I) as (T1 & T2 & T3).
+    destruct (G2_keep s s' El T1 T2 I3) as [D E].
+    assert (Hact : forall j, j <> i -> act s' j -> act s j).
+    { intros j Hne [Ha|[t Ht]]; [left|right; exists t; now rewrite <- Et].
+      unfold staged2 in *. rewrite Es, Hstage_set in Ha. destruct (N.eqb_spec i j); [congruence|exact Ha]. }
+    constructor; auto.
+    + intros t j Ht. rewrite Et in Ht. rewrite Ei. apply (iv_thi _ I3 t j Ht).
+    + intros j ck Hk. rewrite Ei. rewrite Es, Hstage_set in Hk. destruct (N.eqb_spec i j); [subst; eauto|apply (iv_sti _ I3 j ck Hk)].
+    + intros j y Hy Ha Hgy. rewrite Ei in Hy. rewrite Er, get_set. destruct (N.eq_dec j i) as [->|Hne].
+      * assert (y = x) by congruence. subst y. rewrite Hn, N.eqb_refl. reflexivity.
+      * pose proof (iv_reg _ I3 j y Hy (Hact j Hne Ha) Hgy) as Hr.
+        destruct (N.eqb_spec n (nm y)); [|exact Hr]. exfalso.
+        destruct (iv_name _ _ HI j i y x Hy Hx Hne) as [G|G]; congruence.
+    + intros th' order Hsn. exfalso. destruct (T3 th' order Hsn) as [Hold|Hall].
+      * assert (Hl : lockpc (dpc (get_thread s th')) = true) by (destruct Hold as [[r Hr]|Hr]; rewrite Hr; reflexivity).
+        rewrite (iv_lock _ I3 th' Hl) in Hlk. discriminate.
+      * (* snap_all never offered by thr_conds *) destruct (dpc_self_mono _ _ _ _ H I) as [_ Hs].
+        assert (Hold : snappc (dpc (get_thread s th')) order).
+        { destruct (N.eq_dec th' th) as [->|Hne]; [auto|]. now rewrite (dpc_other _ _ _ _ H th' Hne) in Hsn. }
+        assert (Hl : lockpc (dpc (get_thread s th')) = true) by (destruct Hold as [[r Hr]|Hr]; rewrite Hr; reflexivity).
+        rewrite (iv_lock _ I3 th' Hl) in Hlk. discriminate.
+  - (* ERegDel *)
+    destruct (eff_regdel _ _ _ _ H) as (x & Hx & Hg & Hrx & Er & Es & Et & El & Ei).
+    destruct (thr_conds _ _ _ _ H Hpn I) as (T1 & T2 & T3).
+    destruct (G2_keep s s' El T1 T2 I3) as [D E].
+    assert (Hact : forall j, act s' j -> act s j) by (intros j; unfold act, staged2; rewrite Es, Et; auto).
+    assert (Hb : ibwd s s') by (intros j y Hy _; rewrite Ei in Hy; eauto).
+    constructor; auto.
+    + intros t j Ht. rewrite Et in Ht. rewrite Ei. apply (iv_thi _ I3 t j Ht).
+    + intros j ck Hk. rewrite Ei. rewrite Es in Hk. apply (iv_sti _ I3 j ck Hk).
+    + intros j y Hy Ha Hgy. rewrite Ei in Hy. pose proof (iv_reg _ I3 j y Hy (Hact j Ha) Hgy) as Hr.
+      rewrite Er, get_del. destruct (N.eqb_spec (nm x) (nm y)) as [En|]; [|exact Hr]. exfalso.
+      rewrite En in Hrx. assert (j = i) by congruence. subst j. congruence.
+    + intros th' order Hsn. eapply (G3_keep s s'); eauto.
+  - (* ESpawn *)
+    destruct (eff_spawn _ _ _ _ _ H) as (Has & Es & Er & Et & El).
+    destruct (all_ibwd _ _ _ _ H) as [Hb Hf]. { intros a b E. discriminate. }
+    assert (Hold : get i (stage s) = Some (th, 2)).
+    { unfold at_stage in Has. destruct (get i (stage s)) as [[c k]|]; [|discriminate]. split_andb.
+      apply Nat.eqb_eq in H1. subst. reflexivity. }
+    eapply Inv3_assemble; eauto; try exact I.
+    + intros j. unfold staged2. rewrite Es, Hstage_set. destruct (N.eqb_spec i j); [subst; now rewrite Hold|auto].
+    + intros j ck. rewrite Es, Hstage_set. destruct (N.eqb_spec i j); [subst; eauto|eauto].
+  - (* EBegin *)
+    destruct (eff_begin _ _ _ _ H) as ((c & Hst) & (x & Hx) & Et & Es & Er & El & Ei).
+    destruct (thr_conds _ _ _ _ H Hpn I) as (T1 & T2 & T3).
+    destruct (G2_keep s s' El T1 T2 I3) as [D E].
+    assert (Hact : forall j, act s' j -> act s j).
+    { intros j [Ha|[t Ht]].
+      - left. unfold staged2 in *. rewrite Es, get_del in Ha. destruct (N.eqb_spec i j); [discriminate|exact Ha].
+      - rewrite Et, get_set in Ht. destruct (N.eqb_spec th t); [|right; eauto]. injection Ht as <-. left. unfold staged2. now rewrite Hst. }
+    assert (Hb : ibwd s s') by (intros j y Hy _; rewrite Ei in Hy; eauto).
+    constructor; auto.
+    + intros t j Ht. rewrite Ei. rewrite Et, get_set in Ht. destruct (N.eqb_spec th t); [injection Ht as <-; eauto|apply (iv_thi _ I3 t j Ht)].
+    + intros j ck Hk. rewrite Ei. rewrite Es, get_del in Hk. destruct (N.eqb_spec i j); [discriminate|apply (iv_sti _ I3 j ck Hk)].
+    + intros j y Hy Ha Hgy. rewrite Ei in Hy. rewrite Er. apply (iv_reg _ I3); auto.
+    + intros th' order Hsn. eapply (G3_keep s s'); eauto.
+  - (* EState *)
+    destruct (eff_state _ _ _ _ _ H) as (Er & Et & El & Hs).
+    destruct (all_ibwd _ _ _ _ H) as [Hb Hf]. { intros a b E. discriminate. }
+    eapply Inv3_assemble; eauto; try exact I.
+    + intros j. unfold staged2. destruct Hs as [->|[Ha ->]]; [auto|]. rewrite Hstage_set. destruct (N.eqb_spec i j); [discriminate|auto].
+    + intros j ck. destruct Hs as [->|[Ha ->]]; [eauto|]. rewrite Hstage_set. destruct (N.eqb_spec i j); [subst|eauto].
+      intros _. left. unfold at_stage in Ha. destruct (get j (stage s)); [eauto|discriminate].
+  - (* EShutdownBegin *)
+    destruct (eff_sdbegin _ _ _ H) as (Hl0 & Hl1 & Er & Es & Et).
+    destruct (step_core_dpc _ _ _ _ H eq_refl) as [_ Hd]. cbn in Hd.
+    destruct (all_ibwd _ _ _ _ H) as [Hb Hf]. { intros a b E. discriminate. }
+    destruct (G1_keep s s') as (A & B & C & Hact); auto.
+    { intros j. unfold staged2. now rewrite Es. } { intros j ck. rewrite Es. eauto. }
+    assert (Hno : forall th', th' <> th -> lockpc (dpc (get_thread s' th')) = true -> False).
+    { intros th' Hne Hp. rewrite (dpc_other _ _ _ _ H th' Hne) in Hp. rewrite (iv_lock _ I3 th' Hp) in Hl0. discriminate. }
+    constructor; auto.
+    + intros th' Hp. destruct (N.eq_dec th' th) as [->|Hne]; [exact Hl1|]. exfalso. eauto.
+    + intros th' Hp. exfalso. destruct (unl_keep _ _ _ _ H Hpn) with (th' := th') as [Hp0 _]; [discriminate|exact Hp|].
+      destruct (iv_unl _ I3 th' Hp0) as [_ Hk]. congruence.
+    + intros th' order Hsn. exfalso. destruct (N.eq_dec th' th) as [->|Hne].
+      * rewrite Hd in Hsn. destruct Hsn as [[r Hr]|Hr]; discriminate.
+      * apply (Hno th' Hne). destruct Hsn as [[r Hr]|Hr]; rewrite Hr; reflexivity.
+Qed.
 
 
 (* ---- observer: o_byapi, o_insnap, o_stopreq ---------------------------------------------------------------------- *)
@@ -325,12 +588,6 @@ Lemma oi_sdorder cs o th order j :
   option_map (fun x => fold_left (fun x i => if N.eqb i j then x <| o_stopreq := true |> <| o_insnap := true |> else x) order x) (get j (oi o)).
 Proof. cbn. rewrite fold_oi_upd_get. reflexivity. Qed.
 
-Lemma begun_false o i : begun o i = false -> forall th, get th (o_th o) <> Some i.
-Proof.
-  unfold begun. intros H th Hg. apply get_in in Hg.
-  pose proof (existsb_false_in _ _ H (th, i) Hg) as He. cbn in He. rewrite N.eqb_refl in He. discriminate.
-Qed.
-
 Section RelC03b.
 Context (cs : amap pconf).
 
@@ -350,11 +607,11 @@ Proof.
   intros HP H th'. destruct (step_core_apc _ _ _ _ H) as [Hoth Hth]. rewrite obs_pre_api.
   destruct (N.eqb_spec th th'); [subst th'; apply Hth, HP|]. rewrite Hoth by congruence. apply HP.
 Qed.
-Definition R4 (s : sys) (o : obs) : Prop := Rc cs s o /\ Inv s o /\ Inv2 s o.
+Definition R4 (s : sys) (o : obs) : Prop := Rc cs s o /\ Inv s o /\ Inv2 s o /\ Inv3 s.
 
 Lemma R4_init ord : R4 (init cs ord) (obs0 cs).
 Proof.
-  split; [apply Rc_init|]. split; [apply Inv_init|]. constructor.
+  split; [apply Rc_init|]. split; [apply Inv_init|]. split; [|apply Inv3_init]. constructor.
   - intros i x H. cbn in H. discriminate.
   - intros H. cbn in H. lia.
   - intros th. reflexivity.
@@ -478,7 +735,7 @@ Proof.
            unfold snap_of in He. rewrite Hcur, Hm in He. cbn in He.
            destruct (o_gone xo') eqn:Hg; cbn in He.
            ++ right. left. apply Hnl, gonepc_nl, (pi_gone _ _ _ P Hg).
-           ++ apply negb_false_iff in He. unfold excused in He. apply andb_true_iff in He. destruct He as [He _].
+           ++ apply negb_false_iff in He. unfold excused in He.
               apply andb_true_iff in He. destruct He as [He1 He2]. apply negb_true_iff in He2.
               right. right. left. auto.
     + (* the new instance *) left. cbn in Hsd |- *. unfold escape_C03, is_run in Hesc. cbn [fst snd] in Hesc.
@@ -492,25 +749,26 @@ Qed.
 Lemma R4_step s o th e s' : R4 s o -> step s (th, e) = Some s' ->
   W_C03 (obs_step cs o (th, e)) = false -> escape_C03 o (th, e) = false -> R4 s' (obs_step cs o (th, e)).
 Proof.
-  intros (HRc & HI & HI2) H HW Hesc. split; [eapply Rc_step; eauto|].
+  intros (HRc & HI & HI2 & HI3) H HW Hesc. split; [eapply Rc_step; eauto|].
   rewrite obs_step_pre in *. unfold step in H. cbn [fst snd] in H.
   assert (HRc0 : Rc cs (flush th s) o) by (eapply Rc_sys_same; eauto using sys_same_flush).
   assert (HI0 : Inv (flush th s) o) by now apply Inv_flush.
   assert (HI20 : Inv2 (flush th s) o) by now apply Inv2_flush.
   assert (Hpn : pend (get_thread (flush th s) th) = None).
   { destruct (flush_thread th s th) as (_ & _ & _ & Ep). rewrite Ep, N.eqb_refl. reflexivity. }
-  split.
+  split; [|split].
   - apply Inv_refresh. eapply (Inv_core cs (flush th s)); eauto.
   - apply Inv2_refresh. destruct (own_ev e) eqn:Hev.
     + rewrite step_core_own in H by exact Hev. eapply Inv2_own; eauto.
     + eapply Inv2_nonown; eauto.
+  - eapply (Inv3_core (flush th s) o); eauto. now apply Inv3_flush.
 Qed.
 
 (* ---- the monitor ------------------------------------------------------------------------------------------------------- *)
-Lemma mon_core s o th e s' : Rc cs s o -> Inv s o -> Inv2 s o -> step_core s th e = Some s' ->
-  escape_C03 o (th, e) = false -> mon_C03 cs o (th, e) = true.
+Lemma mon_core s o th e s' : Rc cs s o -> Inv s o -> Inv2 s o -> Inv3 s -> step_core s th e = Some s' ->
+  mon_C03 cs o (th, e) = true.
 Proof.
-  intros HRc HI [HB HA HP] H Hesc. unfold mon_C03. cbn [fst snd].
+  intros HRc HI [HB HA HP] I3 H. unfold mon_C03. cbn [fst snd].
   destruct e; try reflexivity; try (destruct (ev_inst o th _); reflexivity).
   - (* ELaunch *)
     destruct ok; [|try reflexivity; cbn; destruct (get th (o_th o)); reflexivity].
@@ -542,28 +800,22 @@ Proof.
       destruct (iv_run _ _ HI _ _ Hv Hrun) as (j & y & Hy & _ & Hdy & Hrp).
       destruct (memN j order) eqn:Hm.
       * destruct (all_done_in _ _ _ Had Hm) as (y2 & Hy2 & Hd2). congruence.
-      * destruct (rc_inst _ _ _ HRc j y Hy) as (yo & Hyo & _).
-        unfold escape_C03 in Hesc. cbn [fst snd] in Hesc.
-        pose proof (existsb_false_in _ _ Hesc (j, yo) (get_in _ _ _ Hyo)) as He. cbn in He.
-        unfold snap_of in He. rewrite Hcur, Hm in He. cbn in He.
-        destruct (o_gone yo) eqn:Hg; cbn in He.
-        -- pose proof (pi_gone _ _ _ (iv_inst _ _ HI j y yo Hy Hyo) Hg) as Hgp. rewrite (run_not_gone _ Hrp) in Hgp. discriminate.
-        -- apply negb_false_iff in He. unfold excused in He. apply andb_true_iff in He. destruct He as [_ He].
-           apply negb_true_iff in He. pose proof (begun_false _ _ He) as Hnb.
-           destruct (HB j y Hy) as [(t & Hpt)|(t & Ht)].
-           ++ rewrite Hpt in Hrp. discriminate.
-           ++ apply (Hnb t). now rewrite <- (rc_th _ _ _ HRc t).
+      * (* an unfinished instance in its launch cycle is active and not gone: it is in the snapshot *)
+        assert (Hact : act s j).
+        { destruct (HB j y Hy) as [(t & Hpt)|(t & Ht)]; [rewrite Hpt in Hrp; discriminate|right; eauto]. }
+        rewrite (iv_snap _ I3 th order Hdp j y Hy Hact (run_not_gone _ Hrp)) in Hm. discriminate.
 Qed.
 
 Lemma R4_step_mon s o e s' : R4 s o -> step s e = Some s' ->
   W_C03 (obs_step cs o e) = false -> escape_C03 o e = false -> R4 s' (obs_step cs o e) /\ mon_C03 cs o e = true.
 Proof.
   destruct e as [th e]. intros HR H HW Hesc. split; [eapply R4_step; eauto|].
-  destruct HR as (HRc & HI & HI2). unfold step in H. cbn [fst snd] in H.
+  destruct HR as (HRc & HI & HI2 & HI3). unfold step in H. cbn [fst snd] in H.
   eapply (mon_core (flush th s)); eauto.
   - eapply Rc_sys_same; eauto using sys_same_flush.
   - now apply Inv_flush.
   - now apply Inv2_flush.
+  - now apply Inv3_flush.
 Qed.
 End RelC03b.
 
